@@ -531,3 +531,32 @@ UNITS.append(Unit("cfgmap.add", "mcadd.c", enforce="manage_config_add", lifts={"
         Sub(r"\bconfig_\[(\w+)\] = (\w+);", r"map_assign(self, \1, \2);", None),
     ], loops={1: LOOP_MCADD, "count": 1})}, funcs=[MCCPP + ": pika::detail::manage_config::add"], min_obligations=5,
     doc="I: after add(cfg) every key defined in cfg holds its LAST definition (argument order: environment first, command line later)"))
+
+
+# ---- get_commandline_parser (added by main after seeded change C16-4 was missed) ----
+PCL = "libs/pika/command_line_handling/src/parse_command_line.cpp"
+PCL_HPP = "libs/pika/command_line_handling/include/pika/command_line_handling/parse_command_line.hpp"
+def _cem_defines():
+    import re as _re
+    from vx.lift import read_source as _rs
+    try:
+        src = _rs(PCL_HPP)
+    except LiftError:
+        return []
+    m = _re.search(r"enum class commandline_error_mode\s*\{([^}]*)\}", src)
+    out, nxt = [], 0
+    for item in (m.group(1) if m else "").split(","):
+        mm = _re.match(r"\s*(\w+)\s*(?:=\s*(\w+))?\s*$", item)
+        if not mm:
+            continue
+        v = int(mm.group(2), 0) if mm.group(2) else nxt
+        nxt = v + 1
+        out.append("CEM_V_%s=%d" % (mm.group(1), v))
+    return out
+UNITS.append(Unit("cmdline.get_commandline_parser", "parser.c", defines=_cem_defines(), enforce="get_commandline_parser",
+    lifts={"body": Lift(PCL, r"get_commandline_parser\(\s*pika::program_options::basic_command_line_parser<char>& p, commandline_error_mode mode\)", rules=[
+        Sub(r"\bcommandline_error_mode::(\w+)", r"CEM_\1", None),
+        Sub(r"\b(\w+)\.allow_unregistered\(\)", r"parser_allow_unregistered(\1)", None),
+        Call(r"\bcontains_error_mode", "((({0}) & ({1})) == ({1}))", None)])},
+    funcs=[PCL + ": pika::detail::get_commandline_parser"], min_obligations=4,
+    doc="F: allow_unregistered() iff the base error mode is allow_unregistered, for every combination with report_missing_config_file"))
